@@ -1368,6 +1368,10 @@ OPNMIDI_EXPORT int opn2_setTrackOptions(struct OPN2_MIDIPlayer *device, size_t t
     unsigned enableFlag = trackOptions & 3;
     trackOptions &= ~3u;
 
+    // no other options are defined yet: refuse before anything gets changed
+    if(trackOptions != 0)
+        return -1;
+
     // handle on/off/solo
     switch(enableFlag)
     {
@@ -1385,10 +1389,6 @@ OPNMIDI_EXPORT int opn2_setTrackOptions(struct OPN2_MIDIPlayer *device, size_t t
         seq.setSoloTrack(trackNumber);
         break;
     }
-
-    // handle others...
-    if(trackOptions != 0)
-        return -1;
 
     return 0;
 
